@@ -24,7 +24,7 @@ CONFIG = {
                 "the turn manager part is Model/Turn.v at binary64 (property C02)"],
     "assumptions": ["content uses the engine API legally: qualified attacks and EndAttack only from action / ult / insert bodies"],
     "manifest": {
-        "level_text": 'Kernel-checked theorems about the executable whole-simulation model: what a death check kills (dead always, limbo only at turn end), that the living lists lose exactly the killed units and that no content script or listener can change them, that no HP change revives or re-limbos a dead unit, that an action starts only for an Alive unit and that queued inserts of dead / removed / flagged sources are dropped without any event. The trace-level statement (announced once, absent from every later turn order / sample / action / insert, killer = last damaging attacker) is a boolean trace predicate evaluated on every real simulator trace (and, through exact trace correspondence, on every model trace); it is proved per function, not as one invariant over whole runs (partial).',
+        "level_text": 'Kernel-checked theorems about the executable whole-simulation model: what a death check kills (dead always, limbo only at turn end), that the living lists lose exactly the killed units and that no content script or listener can change them, that no HP change revives or re-limbos a dead unit, that an action starts only for an Alive unit and that queued inserts of dead / removed / flagged sources are dropped without any event. The trace-level statement is proved as one theorem over whole runs (C08_trace_level: for every configuration, content and fuel, the trace of every run that ends satisfies death_ok: announced at most once, afterwards absent from every turn order snapshot, sample, turn-end snapshot, never the acting unit, starts no action or insert), by a frame principle over all scripts (Proofs/SimFrame.v) and a per-function relation composed over the loop (Proofs/SimDeathTrace.v). The same boolean predicate, and the killer clause (killer = attacker of the last damaging hit, killer_ok_from, monitor only: not proved as a whole-run theorem), are evaluated on every real simulator trace.',
         "level_note": "Coq kernel; hand-written model Model/Sim.v tied by whole-trace correspondence; content is scripted harness "
                       "content registered through the exported Register functions; internal/* content is not modelled.",
         "technique": 'Coq proofs (frame and absorption lemmas over all scripts) + whole-trace correspondence + trace monitor',
